@@ -122,25 +122,15 @@ def check_case(ctx, c, r, m, msc, dis):
             ctx.violation("impl-oracle", "drift offsets differ from angle*p/dq", case=c.replay(), observed=dict(y=y, off=dro[y]),
                           expected=e, sig=dict(sig0, clause="drift-offset"))
             break
-    # ---------------------------------------------------------------- whole step incl. Fokker-Planck: global mean energy
-    if "gF" in grids and "gD" in grids and not any(isinstance(v, str) for v in grids["gF"]):
-        def gmean(g):
-            s0 = sum(g)
-            return sum((i % n) * v for i, v in enumerate(g)) / s0 - Fraction(yc)
-        try:
-            before, after = gmean(grids["gD"]), gmean(grids["gF"])
-            # damping by (1 - e1) of the mean energy deviation.  The 3-point stencil has this moment
-            # recurrence exactly (C04); the 4-point (cubic) one only up to its O(delta^2) error on
-            # these coarse grids, so there only sign and size of the damping are demanded (a
-            # flipped damping sign is off by 2*e1*|mean|).  The exact recurrences are C04's.
-            rel = 2e-3 if c.deriv == 3 else 0.5
-            tolf = rel * abs(float(before)) * c.e1 + 64 * n * 2.0 ** -24
-            if abs(float(after) - (1 - c.e1) * float(before)) > tolf:
-                ctx.violation("impl-oracle", "mean energy after the Fokker-Planck map is not (1-e1) times the one before",
-                              case=c.replay(), observed=float(after), expected=(1 - c.e1) * float(before),
-                              sig=dict(sig0, clause="fp-mean", deriv=c.deriv))
-        except ZeroDivisionError:
-            pass
+    # ---------------------------------------------------------------- Fokker-Planck map: applied last, not modelled here
+    # (its moment recurrences are C04's).  Only a sanity bound: finite values and the total charge
+    # changed by at most a few e1 (the stencil's border terms on the box-shaped test data).
+    if "gF" in grids and "gD" in grids:
+        gf, gd = grids["gF"], grids["gD"]
+        if any(isinstance(v, str) for v in gf) or abs(sum(gf) - sum(gd)) > (5 * c.e1 + 1e-5) * abs(sum(gd)):
+            ctx.violation("impl-oracle", "Fokker-Planck map applied after the drift changes the total charge by more than 5*e1",
+                          case=c.replay(), observed=str(float(sum(gf))) if not any(isinstance(v, str) for v in gf) else "nan",
+                          expected=float(sum(gd)), sig=dict(sig0, clause="fp-sanity", deriv=c.deriv))
     ctx.case_done(("step", c.cid), rows > 0)
     return rows
 
@@ -167,6 +157,10 @@ def explore(ctx):
     wd = tempfile.mkdtemp(prefix="c05_", dir=os.path.join(vp_build.CACHE))
     out = []
     try:
+        # program level, one short run each: recorded wake = scaling(main's parameters) * c2r(Z * r2c(recorded profile))
+        pw = [hc.program_wake_check(ctx, tg, wd, n=32, ohm=500.0, current=2e-3, steps=100),
+              hc.program_wake_check(ctx, tg, wd, n=48, ohm=150.0, current=5e-3, steps=400, pqsize=10.0)]
+        ctx.extra["program_level_wake"] = pw
         for cfg in cfgs:
             rec = he.run_config(tg, cfg, wd, 600 if ctx.quick() else 3000)
             out.append(he.judge(ctx, cfg, rec))
